@@ -18,10 +18,10 @@ theorem writeBranch_table :
     writeBranch .dict = 4 ∧ writeBranch .none = 5 ∧ writeBranch .tuple = 6 ∧
     writeBranch .scalar = 7 := by decide
 
-theorem listDispatch_table (u : Nat) :
-    listDispatch 1 0 u = 3 ∧ listDispatch 0 1 u = 3 ∧ listDispatch 0 0 1 = 1 ∧
-    listDispatch 0 0 0 = 2 := by
-  refine ⟨by simp [listDispatch], by simp [listDispatch], by decide, by decide⟩
+theorem listDispatch_table (o u : Nat) :
+    listDispatch 1 0 o u = 3 ∧ listDispatch 0 1 o u = 3 ∧ listDispatch 0 0 1 u = 3 ∧
+    listDispatch 0 0 0 1 = 1 ∧ listDispatch 0 0 0 0 = 2 := by
+  refine ⟨by simp [listDispatch], by simp [listDispatch], by simp [listDispatch], by decide, by decide⟩
 
 theorem writeArray_eq (c : Codec) (cont : Cont) (sh : List Nat) (el : List Atom) (h : cont ≠ .tuple) :
     writeArray c sh el = encodeLeaf c (.tens cont sh el) := by
@@ -31,9 +31,9 @@ theorem writeListC_eq (c : Codec) (sh : List Nat) (el : List Atom) :
     writeListC c sh el = writeArray c sh el := by
   unfold writeListC
   by_cases h : (!el.all Atom.isNum && el.all Atom.isStr) = true
-  · simp [h, b2n, (listDispatch_table 0).2.2.1]
+  · simp [h, b2n, (listDispatch_table 0 0).2.2.2.1]
   · have h' : (!el.all Atom.isNum && el.all Atom.isStr) = false := by simpa using h
-    simp [h', b2n, (listDispatch_table 0).2.2.2]
+    simp [h', b2n, (listDispatch_table 0 0).2.2.2.2]
 
 /-- the leaf writer as coded is the specification, for every value that is not a dictionary -/
 theorem encodeLeafC_eq (c : Codec) (v : Val) : encodeLeafC c v = encodeLeaf c v := by
@@ -84,7 +84,8 @@ theorem encodeC_eq (c : Codec) (d : Val) : encodeC c d = encode c d := by
       | dcons k' v' r' =>
         by_cases hk : k' = listKey
         · subst hk
-          simp [pyTypeOf, t3, Val.isDict, (listDispatch_table 0).1, (listDispatch_table 0).2.1]
+          simp [pyTypeOf, t3, Val.isDict, (listDispatch_table 0 0).1, (listDispatch_table 0 0).2.1,
+            (listDispatch_table 0 0).2.2.1]
         · simp [pyTypeOf, hk, t4, Val.isDict]
       | tens cont sh el =>
         cases cont <;> simp [pyTypeOf, t2, t3, t6, t7, Val.isDict, encodeLeafC_eq]
